@@ -250,3 +250,17 @@ def strict_to_m(word):
 def decode_m(word):
     """Permutation encoded by a word of M (length >= 2)."""
     return decode(m_to_strict(word))
+
+
+_NONPIN = {}
+
+
+def nonpin_perms(n):
+    """the permutations of length n that are the decoding of no pin word of length n (none for n <= 5, 56 for
+    n = 6), by this module's own enumerator and decoder"""
+    import itertools
+
+    if n not in _NONPIN:
+        have = {tuple(decode(w)) for w in pinwords(n)}
+        _NONPIN[n] = [p for p in itertools.permutations(range(n)) if p not in have]
+    return list(_NONPIN[n])
